@@ -1,4 +1,4 @@
-\* exhaustive: chains of 1..4 steps, 1..3 requested objects, 8 hook outcomes per step (<= 1 count-changing step), 5 rule-declaration variants
+\* exhaustive: chains of 1..4 steps, 1..3 requested objects, 8 hook outcomes per step (<= 1 count-changing step), 5 rule-declaration variants, 2 hook layouts: 226530 states, 95990 cases
 SPECIFICATION Spec
 CONSTANTS
   MaxLen = 4
